@@ -1,0 +1,318 @@
+//go:build verif
+
+package main
+
+// Driver for the correspondence check of property C15 (/verif), clause "a configuration that
+// is accepted can be run", for the enumerated options proxy.strategy, proxy.matcher and
+// ui.access: every job is one config.Load; with the configuration it returns the driver builds
+// what main() builds from it -- newHTTPProxy, lookupHostFn, lookupHostMatcher (main.go), the
+// gRPC stream interceptor (the struct literal of newGrpcProxy) and the admin server (the struct
+// literal of startAdmin) -- installs a routing table with routes of 1, 2 and 3 targets and
+// probes each consumer: which target a lookup returns, nil, or a PANIC.
+// Reads the jobs from VERIF_C15_IN, writes the results to VERIF_C15_OUT; skipped otherwise.
+
+import (
+	"bytes"
+	"context"
+	"encoding/json"
+	"fmt"
+	"io"
+	"log"
+	"net/http"
+	"net/http/httptest"
+	"net/url"
+	"os"
+	"strings"
+	"testing"
+
+	"github.com/fabiolb/fabio/admin"
+	"github.com/fabiolb/fabio/config"
+	"github.com/fabiolb/fabio/metrics"
+	"github.com/fabiolb/fabio/proxy"
+	"github.com/fabiolb/fabio/route"
+	"github.com/fabiolb/fabio/transport"
+
+	"google.golang.org/grpc"
+	"google.golang.org/grpc/metadata"
+)
+
+type verifC15Job struct {
+	Args, Env []string
+}
+
+// one route of a host key as the lookup sees it: would the three matchers match the probe's
+// path (computed with route.Matcher's own functions), and how many targets it has
+type verifC15Rt struct {
+	Pfx, Glob, IPfx bool
+	N               int
+}
+
+type verifC15Probe struct {
+	Site       int // 0 HTTPProxy.Lookup, 1 lookupHostFn, 2 lookupHostMatcher, 3 gRPC stream interceptor
+	Host, Path string
+	Keys       [][]verifC15Rt // the host keys the lookup tries, in order, each with its routes in table order
+	Out        int            // 0 a target, 1 no target, 3 PANIC
+	Hi, Ri     int            // sites 0, 1: the host key and route the returned target belongs to (-1: to none)
+	Panic      string
+}
+
+type verifC15Res struct {
+	Outcome                   int // 0 configuration, 1 error, 3 PANIC, 5 neither (version word)
+	Err                       string
+	Strategy, Matcher, Access string // as the returned configuration carries them
+	Probes                    []verifC15Probe
+	AccessMode                int   // /api/manual: 0 forbidden (ro), 1 manual-override handler (rw), 2 not registered, 3 PANIC
+	Alternates                *bool // 40 lookups on the two-target route alternate strictly (round robin does, random does not)
+}
+
+const verifC15Routes = `route add two /two http://127.0.0.1:7001/
+route add two /two http://127.0.0.1:7002/
+route add one /one http://127.0.0.1:7003/
+route add three /three/deep http://127.0.0.1:7004/
+route add three /three/deep http://127.0.0.1:7005/
+route add three /three/deep http://127.0.0.1:7006/
+route add mixed /MixedCase http://127.0.0.1:7007/
+route add mixed /MixedCase http://127.0.0.1:7008/
+route add gl /gl*b/x http://127.0.0.1:7009/
+route add gl /gl*b/x http://127.0.0.1:7010/
+route add tcptwo tcp.example/ tcp://127.0.0.1:7011
+route add tcptwo tcp.example/ tcp://127.0.0.1:7012
+route add tcpone one.example/ tcp://127.0.0.1:7013
+route add hp host.example/hp http://127.0.0.1:7014/
+route add hp host.example/hp http://127.0.0.1:7015/
+`
+
+type verifC15Stream struct {
+	grpc.ServerStream
+	ctx context.Context
+}
+
+func (s verifC15Stream) Context() context.Context { return s.ctx }
+
+func verifC15Recover(f func()) (msg string, panicked bool) {
+	defer func() {
+		if v := recover(); v != nil {
+			msg, panicked = fmt.Sprint(v), true
+		}
+	}()
+	f()
+	return
+}
+
+func verifC15Keys(tbl route.Table, keys []string, path string) [][]verifC15Rt {
+	out := make([][]verifC15Rt, len(keys))
+	for i, k := range keys {
+		out[i] = []verifC15Rt{}
+		for _, r := range tbl[k] {
+			out[i] = append(out[i], verifC15Rt{
+				Pfx:  route.Matcher["prefix"](path, r),
+				Glob: route.Matcher["glob"](path, r),
+				IPfx: route.Matcher["iprefix"](path, r),
+				N:    len(r.Targets),
+			})
+		}
+	}
+	return out
+}
+
+func verifC15Locate(tbl route.Table, keys []string, t *route.Target) (int, int) {
+	for hi, k := range keys {
+		for ri, r := range tbl[k] {
+			for _, x := range r.Targets {
+				if x == t {
+					return hi, ri
+				}
+			}
+		}
+	}
+	return -1, -1
+}
+
+func TestVerifC15(t *testing.T) {
+	inFile, outFile := os.Getenv("VERIF_C15_IN"), os.Getenv("VERIF_C15_OUT")
+	if inFile == "" || outFile == "" {
+		t.Skip("VERIF_C15_IN / VERIF_C15_OUT not set")
+	}
+	var jobs []verifC15Job
+	b, err := os.ReadFile(inFile)
+	if err != nil {
+		t.Fatal(err)
+	}
+	if err := json.Unmarshal(b, &jobs); err != nil {
+		t.Fatal(err)
+	}
+	log.SetOutput(io.Discard)
+
+	results := make([]verifC15Res, len(jobs))
+	for ji, job := range jobs {
+		res := &results[ji]
+		var cfg *config.Config
+		var lerr error
+		if msg, p := verifC15Recover(func() { cfg, lerr = config.Load(job.Args, job.Env) }); p {
+			res.Outcome, res.Err = 3, msg
+			continue
+		}
+		switch {
+		case lerr != nil:
+			res.Outcome, res.Err = 1, lerr.Error()
+			continue
+		case cfg == nil:
+			res.Outcome = 5
+			continue
+		}
+		res.Strategy, res.Matcher, res.Access = cfg.Proxy.Strategy, cfg.Proxy.Matcher, cfg.UI.Access
+
+		// what main() does with an accepted configuration before it serves
+		transport.SetConfig(cfg)
+		stats, err := metrics.Initialize(&cfg.Metrics)
+		if err != nil {
+			t.Fatalf("job %d: metrics.Initialize: %v", ji, err)
+		}
+		route.SetMetricsProvider(stats)
+		tbl, err := route.NewTable(bytes.NewBufferString(verifC15Routes))
+		if err != nil {
+			t.Fatalf("job %d: route.NewTable: %v", ji, err)
+		}
+		route.SetTable(tbl)
+
+		var h *proxy.HTTPProxy
+		var hostFn func(string) *route.Target
+		var hostMatch func(context.Context, string) bool
+		var icpt proxy.GrpcProxyInterceptor
+		if msg, p := verifC15Recover(func() {
+			h = newHTTPProxy(cfg, &proxy.HttpStatsHandler{Noroute: stats.NewCounter("notfound")})
+			hostFn = lookupHostFn(cfg, stats.NewCounter("tcp_sni.noroute"))
+			hostMatch = lookupHostMatcher(cfg)
+			icpt = proxy.GrpcProxyInterceptor{ // main.go newGrpcProxy
+				Config:       cfg,
+				StatsHandler: &proxy.GrpcStatsHandler{NoRoute: stats.NewCounter("grpc.noroute")},
+				GlobCache:    route.NewGlobCache(cfg.GlobCacheSize),
+			}
+		}); p {
+			res.Probes = append(res.Probes, verifC15Probe{Site: 0, Out: 3, Hi: -1, Ri: -1, Panic: "building the proxies: " + msg})
+			continue
+		}
+
+		httpKeys := func(host string) []string {
+			if _, ok := tbl[host]; ok && host != "" {
+				return []string{host, ""}
+			}
+			return []string{""}
+		}
+		probe := func(site int, host, path string) {
+			p := verifC15Probe{Site: site, Host: host, Path: path, Hi: -1, Ri: -1}
+			var keys []string
+			var target *route.Target
+			found := false
+			var msg string
+			var panicked bool
+			switch site {
+			case 0:
+				keys = httpKeys(host)
+				req := &http.Request{Method: "GET", Host: host, URL: &url.URL{Path: path}, Header: http.Header{}}
+				msg, panicked = verifC15Recover(func() { target = h.Lookup(req); found = target != nil })
+			case 1:
+				keys = []string{strings.ToLower(host)} // route/table.go lookup: routes are added lowercase
+				msg, panicked = verifC15Recover(func() { target = hostFn(host); found = target != nil })
+			case 2:
+				keys = []string{strings.ToLower(host)} // route/table.go lookup: routes are added lowercase
+				msg, panicked = verifC15Recover(func() { found = hostMatch(context.Background(), host) })
+			case 3:
+				keys = httpKeys(host)
+				md := metadata.MD{}
+				if host != "" {
+					md.Set("dsthost", host)
+				}
+				ctx := metadata.NewIncomingContext(context.Background(), md)
+				msg, panicked = verifC15Recover(func() {
+					icpt.Stream(nil, verifC15Stream{ctx: ctx}, &grpc.StreamServerInfo{FullMethod: path},
+						func(srv interface{}, s grpc.ServerStream) error { found = true; return nil })
+				})
+			}
+			p.Keys = verifC15Keys(tbl, keys, path)
+			switch {
+			case panicked:
+				p.Out, p.Panic = 3, msg
+			case found:
+				p.Out = 0
+				if target != nil {
+					p.Hi, p.Ri = verifC15Locate(tbl, keys, target)
+				}
+			default:
+				p.Out = 1
+			}
+			res.Probes = append(res.Probes, p)
+		}
+		for _, pa := range []string{"/two/x", "/one", "/three/deep/er", "/none", "/mixedcase/q", "/MixedCase", "/glob/x", "/Two", "/three"} {
+			probe(0, "other.example", pa)
+		}
+		probe(0, "host.example", "/hp/1")
+		probe(0, "host.example", "/two")
+		probe(0, "tcp.example", "/")
+		for _, host := range []string{"tcp.example", "one.example", "none.example", "TCP.example"} {
+			probe(1, host, "/")
+			probe(2, host, "/")
+		}
+		for _, pa := range []string{"/two/Method", "/one/Method", "/none/Method", "/glob/x"} {
+			probe(3, "", pa)
+		}
+		probe(3, "host.example", "/hp/Method")
+
+		// round robin alternates on a two-target route, random does not (2^-39)
+		alt := true
+		var prev *route.Target
+		if _, p := verifC15Recover(func() {
+			for i := 0; i < 40; i++ {
+				req := &http.Request{Method: "GET", Host: "other.example", URL: &url.URL{Path: "/two"}, Header: http.Header{}}
+				tg := h.Lookup(req)
+				if tg == nil || (i > 0 && tg == prev) {
+					alt = false
+				}
+				prev = tg
+			}
+		}); !p {
+			res.Alternates = &alt
+		}
+
+		// main.go startAdmin
+		if _, p := verifC15Recover(func() {
+			srv := &admin.Server{
+				Access:   cfg.UI.Access,
+				Color:    cfg.UI.Color,
+				Title:    cfg.UI.Title,
+				Version:  version,
+				Commands: route.Commands,
+				Cfg:      cfg,
+			}
+			mux, ok := admin.VerifC15Handler(srv).(*http.ServeMux)
+			if !ok {
+				t.Fatalf("admin handler is not a ServeMux")
+			}
+			req := httptest.NewRequest("GET", "/api/manual", nil)
+			hd, pattern := mux.Handler(req)
+			switch {
+			case pattern != "/api/manual":
+				res.AccessMode = 2
+			default:
+				if _, isFunc := hd.(http.HandlerFunc); isFunc {
+					rec := httptest.NewRecorder()
+					hd.ServeHTTP(rec, req)
+					if rec.Code == http.StatusForbidden {
+						res.AccessMode = 0
+					} else {
+						res.AccessMode = 2
+					}
+				} else {
+					res.AccessMode = 1
+				}
+			}
+		}); p {
+			res.AccessMode = 3
+		}
+	}
+
+	ob, _ := json.Marshal(results)
+	if err := os.WriteFile(outFile, ob, 0o644); err != nil {
+		t.Fatal(err)
+	}
+}
